@@ -267,6 +267,7 @@ impl<'s> Gen<'s> {
             val_seed: r.next(),
             probe_spin: if r.chance(1, 3) { r.below(300) as u32 } else { 0 },
             probe_sleep_us: if slow_source { r.range(20, 300) as u32 } else { 0 },
+            pre_consumed: 0,
         }
     }
 
@@ -439,6 +440,26 @@ impl<'s> Gen<'s> {
                     c.pre_len = c.pre_len.min(6);
                 }
                 c.pre_spare = if r.chance(1, 2) { 0 } else { r.range(0, 2 * c.len + 4) };
+                if !self.small && r.chance(1, 150) {
+                    // one worker pulls tens of thousands of consecutive positions before any other gets going
+                    let shp = r.pick(&["", "M", "MM"]);
+                    let srcs = [Src::VecOwned, Src::IterExact, Src::IterUnknown, Src::Range, Src::Slice];
+                    let src = r.pick(&srcs);
+                    if self.find(src, shp).is_some() {
+                        c.src = src;
+                        c.shape = shp.to_string();
+                        c.stages = stage_specs(&mut r, shp, 100, 1);
+                        c.len = r.range(16_500, 40_000);
+                        c.mode = Mode::F;
+                        c.noise = 3;
+                        c.nt = r.pick(&[2usize, 3, 4]);
+                        c.cs = if src == Src::IterUnknown && r.chance(1, 2) { Cs::Auto } else { Cs::Exact(1) };
+                        c.pre_len = r.range(1, 30);
+                        c.probe_spin = 0;
+                        c.probe_sleep_us = 0;
+                        c.linear_k = 14;
+                    }
+                }
                 c
             }
             "C07" => self.base(
@@ -479,6 +500,13 @@ impl<'s> Gen<'s> {
                     // longer than the thread count and small chunks, so that the bound is approached
                     c.len = c.len.max(c.nt * 3);
                     c.cs = Cs::Exact(r.range(1, 3));
+                }
+                if r.chance(1, 5) && c.nt >= 2 && (!c.stages.is_empty() || c.src == Src::Range) {
+                    // a closure panics on one of the first elements while the spawner may still be spawning: the
+                    // bound holds on unwinding runs as well
+                    c.len = c.len.max(c.nt * 4);
+                    let st = if c.stages.is_empty() { ST_LIFT } else { 0u8 };
+                    c.faults.push(Fault { stage: st, trigger: Trigger::OnId(r.below(3) << 12) });
                 }
                 c
             }
@@ -564,10 +592,32 @@ impl<'s> Gen<'s> {
                     c.strategy = Strategy::LagGrow;
                     c.len = r.range(800, 2500);
                     let mm = r.range(40, 300) as u64;
+                    let mut mm_override: Option<u64> = None;
                     c.pred = match c.term {
                         Term::All => Keep::Prefix(mm),
                         _ => Keep::Origins(vec![mm, mm + 500]),
                     };
+                    if c.src == Src::ConIterVec || (r.chance(1, 4) && self.find(Src::ConIterVec, &c.shape).is_some()) {
+                        // a concurrent iterator that was largely consumed before it became a Par: what was consumed
+                        // before the run is not progress of the run
+                        c.src = Src::ConIterVec;
+                        // (no *_with_index here: for a partially consumed concurrent iterator the "position in the original
+                        // source" is ambiguous, and the library's two modes disagree about it - see DESIGN.md 5.6)
+                        c.term = match c.term {
+                            Term::FindIdx => Term::Find,
+                            Term::FirstIdx => Term::First,
+                            t => t,
+                        };
+                        c.pre_consumed = r.range(8_000, 20_000);
+                        c.len += c.pre_consumed;
+                        let mm2 = mm + c.pre_consumed as u64;
+                        c.pred = match c.term {
+                            Term::All => Keep::Prefix(mm2),
+                            _ => Keep::Origins(vec![mm2, mm2 + 500]),
+                        };
+                        mm_override = Some(mm2);
+                    }
+                    let mm = mm_override.unwrap_or(mm);
                     if matches!(c.term, Term::First | Term::FirstIdx) {
                         if let Some(st) = c.stages.iter_mut().find(|s| matches!(s.kind, Kind::Filter | Kind::FilterMapO | Kind::FilterMapR)) {
                             st.keep = Keep::Suffix(mm);
@@ -604,6 +654,11 @@ impl<'s> Gen<'s> {
                     if x > 64 {
                         c.cs = Cs::Exact(r.range(1, 9));
                     }
+                }
+                if !self.small && r.chance(1, 60) {
+                    c.cs = Cs::Exact(r.pick(&[(1usize << 20) + 1, (1 << 20) + 4096, 1 << 20, 3 << 19]));
+                    c.nt = r.pick(&[2usize, 3]);
+                    c.len = c.len.min(64);
                 }
                 if r.chance(1, 2) {
                     if let Cs::Exact(x) = c.cs {
@@ -698,6 +753,16 @@ impl<'s> Gen<'s> {
         };
         if c.term == Term::Sum && self.find(c.src, &c.shape).map(|s| s.ref_elem).unwrap_or(false) {
             c.term = Term::Reduce;
+        }
+        if c.src == Src::Array {
+            // the array source has a fixed length, whatever the profile did to `len`
+            c.len = 8;
+            c.endless = false;
+            for f in c.faults.iter_mut() {
+                if let Trigger::OnId(id) = f.trigger {
+                    f.trigger = Trigger::OnId(((id >> 12) % 8) << 12);
+                }
+            }
         }
         Some(c)
     }
@@ -821,6 +886,7 @@ impl<'s> Gen<'s> {
             val_seed: r.next(),
             probe_spin: 0,
             probe_sleep_us: 0,
+            pre_consumed: 0,
         }
     }
 
@@ -997,6 +1063,7 @@ impl<'s> Gen<'s> {
             val_seed: r.next(),
             probe_spin: 0,
             probe_sleep_us: 0,
+            pre_consumed: 0,
         })
     }
 
@@ -1040,6 +1107,7 @@ impl<'s> Gen<'s> {
             val_seed: r.next(),
             probe_spin: 0,
             probe_sleep_us: 0,
+            pre_consumed: 0,
         };
         // filters that keep most elements, so that downstream stages have something to (not) do
         for st in c.stages.iter_mut() {
